@@ -60,7 +60,7 @@ def gen_case(rng, pi_method=None, size="small", **kw):
     return {
         "election": e, "pi_method": pi, "estimands": estimands, "alphas": alphas, "params": params,
         "features": features, "policy": rng.choice(["drop", "zero"]), "aggregates": aggregates or E.pick_aggregates(rng, e),
-        "tf_lo": tf_lo, "tf_hi": tf_hi,
+        "tf_lo": tf_lo, "tf_hi": tf_hi, "derived_feed": pi == "bootstrap" and rng.random() < 0.35,
     }
 
 
@@ -86,7 +86,7 @@ def run_case(case, **kw):
     e = case["election"]
     return E.run_client(e, estimands=case["estimands"], alphas=case["alphas"], pi_method=case["pi_method"],
                         aggregates=case["aggregates"], params=case["params"], policy=case["policy"],
-                        features=case["features"], **kw)
+                        features=case["features"], derived_feed=bool(case.get("derived_feed")), **kw)
 
 
 # ----------------------------------------------------------------------------------------------
